@@ -652,6 +652,10 @@ set_memory_constraints(void)
     in_granul = 32768u;
     out_granul = 900000u;
   }
+#ifdef KJN_LBZIP2_VERIF
+  if (decompress)
+    verif_granules(&in_granul, &out_granul);
+#endif
 }
 
 
